@@ -618,6 +618,8 @@ def validate(ctx, recs, label):
 
 
 def describe(meta, rec):
+    if meta["kind"] == "filebatch":
+        return f"batch {meta['batch']} of {describe(meta['job'], {})}: " + describe(meta["job"]["segs"][meta["batch"]], rec)
     if meta["kind"] == "interp":
         nb = sum(1 for v in meta["lab"] if v in (1, 2))
         return f"interpolate_bad_channels on {meta['geom']}{'' if meta['sel'] is None else ' subset ' + str(meta['sel'][:6]) + '..'} " \
@@ -685,7 +687,7 @@ def run(ctx):
         metas.append(j)
         recs.append(frec)
         for k, d in enumerate(dr):                      # each batch of a real file is a detection scenario too
-            metas.append(dict(j["segs"][k], infile=j["stem"]))
+            metas.append({"kind": "filebatch", "job": j, "batch": k})
             recs.append(d)
     order = list(range(len(recs)))
     random.Random(ctx.seed).shuffle(order)              # balance the batches (full-size interp traces are the heavy ones)
@@ -693,7 +695,7 @@ def run(ctx):
     for v in verdicts:
         v["index"] = order[v["index"]]
     report(ctx, verdicts, metas, recs)
-    bad = {v["index"] for v in verdicts}
+    bad = {v["index"] for v in verdicts if v["prop"]}
     for i in (0, len(icases) - 1, len(icases), len(icases) + 50, len(recs) - 1):
         if i < len(recs):
             r = recs[i]
@@ -811,8 +813,10 @@ def selftest(ctx, recs, bad, exp):
     short = [k for k, ok in (("interp", len(its) >= 6 and zs), ("detect", len(ds) >= 3), ("file", fs)) if not ok]
     # a kind without enough accepted traces is acceptable only when this run reports violations of that kind
     # (the code under test is broken there); never let the self-test mask those verdicts
-    unexplained = [k for k in short if not any(v and v["key"].startswith(k) for v in ctx.violations)
-                   and not any(h.startswith(k) for h in ctx.known_hits)]
+    def explained(kind):
+        keys = [v["key"] for v in ctx.violations if v] + list(ctx.known_hits)
+        return any(k.startswith(kind) and k != "detect:dead-below-top-block" for k in keys)
+    unexplained = [k for k in short if not explained(k)]
     if unexplained:
         raise tlc.TLCError(f"binding self-test: not enough accepted traces to corrupt for {unexplained} "
                            f"({len(its)}, {len(zs)}, {len(ds)}, {len(fs)})")
@@ -844,7 +848,7 @@ def selftest(ctx, recs, bad, exp):
         if compare_case(c2, rec) is None:
             raise tlc.TLCError("binding self-test: a perturbed expected support set was not noticed by the replay comparison")
         n += 1
-    if n == 0:
+    if n == 0 and not explained("interp"):
         raise tlc.TLCError("binding self-test: no exported case could be perturbed")
     ctx.cov["selftest_corruptions_flagged"] = len(mut) + n
 
@@ -869,11 +873,12 @@ def replay(ctx, sc):
         rec = run_detect(sc)
     elif kind == "rule":
         rec = run_rule(sc)
-    elif kind == "file":
+    elif kind in ("file", "filebatch"):
+        sc = sc["job"] if kind == "filebatch" else sc
         sc = dict(sc, folder=str(ctx.scratch / "files" / sc["stem"]))
         rec, drecs = run_file(sc)
         recs = [rec] + drecs
-        metas = [sc] + [dict(s, infile=sc["stem"]) for s in (sc["segs"] or [])][:len(drecs)]
+        metas = [sc] + [{"kind": "filebatch", "job": sc, "batch": k} for k in range(len(drecs))]
         report(ctx, validate(ctx, recs, "replay"), metas, recs)
         return
     else:
